@@ -78,9 +78,10 @@ func (t *c04Timers) fire(j int) int {
 }
 
 type c04Item struct {
-	recs    [][]byte
-	barrier uint64
-	isBar   bool
+	recs      [][]byte
+	barrier   uint64
+	isBar     bool
+	thenAwait bool // after handing out recs, hand out empty reads until Checkpoint() has been called
 }
 
 type c04Reader struct {
@@ -92,6 +93,8 @@ type c04Reader struct {
 	waiting  bool // the read loop is blocked in ReadEvents with nothing queued
 	closed   bool
 	startCkp func(id uint64)
+	returned int   // the reader's cursor: records handed out by ReadEvents so far
+	ckpts    []int // cursor at every Checkpoint() call, in order
 }
 
 func (r *c04Reader) AssignSplits(splits []*workerpb.SourceSplit) error { return nil }
@@ -100,6 +103,7 @@ func (r *c04Reader) Checkpoint() [][]byte {
 	r.mu.Lock()
 	defer r.mu.Unlock()
 	r.awaiting = false
+	r.ckpts = append(r.ckpts, r.returned)
 	return nil
 }
 
@@ -126,6 +130,10 @@ func (r *c04Reader) ReadEvents() ([][]byte, error) {
 				r.startCkp(it.barrier)
 				return nil, nil
 			}
+			r.returned += len(it.recs)
+			if it.thenAwait {
+				r.awaiting = true // a checkpoint request is already on its way: nothing more until Checkpoint()
+			}
 			r.mu.Unlock()
 			return it.recs, nil
 		}
@@ -146,6 +154,25 @@ func (r *c04Reader) drained() bool {
 	r.mu.Lock()
 	defer r.mu.Unlock()
 	return len(r.queue) == 0 && !r.awaiting && r.waiting
+}
+
+func (r *c04Reader) setAwaiting() {
+	r.mu.Lock()
+	r.awaiting = true
+	r.mu.Unlock()
+	r.cond.Broadcast()
+}
+
+func (r *c04Reader) cursor() int {
+	r.mu.Lock()
+	defer r.mu.Unlock()
+	return r.returned
+}
+
+func (r *c04Reader) checkpoints() []int {
+	r.mu.Lock()
+	defer r.mu.Unlock()
+	return append([]int(nil), r.ckpts...)
 }
 
 func (r *c04Reader) close() {
@@ -414,6 +441,78 @@ func c04Impl(c lib.Case) []string {
 	}()
 
 	expKeyed, expBars := 0, 0
+	type recInfo struct{ id, cnt int }
+	var recOrder []recInfo // read order, as scripted
+	var barIDs []int       // barrier ids in request order
+	addRecs := func(rs []string) [][]byte {
+		var recs [][]byte
+		for _, r := range rs {
+			id, _, cnt := c04ParseRec(r)
+			expKeyed += cnt
+			recOrder = append(recOrder, recInfo{id, cnt})
+			recs = append(recs, []byte(r))
+		}
+		return recs
+	}
+	waitFor := func(cond func() bool, d time.Duration) bool {
+		for t0 := time.Now(); time.Since(t0) < d; time.Sleep(30 * time.Microsecond) {
+			if cond() {
+				return true
+			}
+		}
+		return cond()
+	}
+	parkedAt := func(l string) int {
+		hooks.mu.Lock()
+		defer hooks.mu.Unlock()
+		return len(hooks.parked[l])
+	}
+	// cut check: for every barrier, the records the reader had handed out when Checkpoint() was called are exactly the
+	// records whose events the operators were handed before that barrier
+	cutCheck := func() string {
+		cks := reader.checkpoints()
+		var parts []string
+		verdict := "ok"
+		for i, n := range cks {
+			id := -1
+			if i < len(barIDs) {
+				id = barIDs[i]
+			}
+			parts = append(parts, fmt.Sprintf("%d:%d", id, n))
+			want := map[int]bool{}
+			for j := 0; j < n && j < len(recOrder); j++ {
+				if recOrder[j].cnt > 0 {
+					want[recOrder[j].id] = true
+				}
+			}
+			seen := map[int]bool{}
+			for _, o := range ops {
+				o.mu.Lock()
+				for _, g := range o.got {
+					if g == fmt.Sprintf("b%d", id) {
+						break
+					}
+					if g[0] != 'b' && g != "sc" {
+						rid, _ := strconv.Atoi(strings.SplitN(g, ".", 2)[0])
+						seen[rid] = true
+					}
+				}
+				o.mu.Unlock()
+			}
+			same := len(seen) == len(want)
+			for k := range seen {
+				same = same && want[k]
+			}
+			if !same && verdict == "ok" {
+				verdict = fmt.Sprintf("b%d:checkpointed-%d-records-but-%d-delivered-before-it", id, len(want), len(seen))
+			}
+		}
+		ck := "-"
+		if len(parts) > 0 {
+			ck = strings.Join(parts, ",")
+		}
+		return "ck=" + ck + " cut=" + verdict
+	}
 	streams := func() string {
 		parts := make([]string, nOps)
 		for i, o := range ops {
@@ -432,16 +531,52 @@ func c04Impl(c lib.Case) []string {
 		res := "-"
 		switch {
 		case len(f) >= 1 && f[0] == "read":
-			var recs [][]byte
-			for _, r := range f[1:] {
-				_, _, cnt := c04ParseRec(r)
-				expKeyed += cnt
-				recs = append(recs, []byte(r))
-			}
-			reader.push(c04Item{recs: recs})
+			reader.push(c04Item{recs: addRecs(f[1:])})
 		case len(f) == 2 && f[0] == "barrier":
 			expBars++
+			barIDs = append(barIDs, atoi(f[1]))
 			reader.push(c04Item{isBar: true, barrier: uint64(atoi(f[1]))})
+		case len(f) >= 3 && f[0] == "readbar":
+			// checkpoint request arrives while this read is being fetched (the loop, or whoever calls ReadEvents, is
+			// blocked in the reader): the read is handed out afterwards, then nothing until Checkpoint() has been called.
+			// Read order: the records, then the barrier.
+			expBars++
+			id := atoi(f[1])
+			barIDs = append(barIDs, id)
+			recs := addRecs(f[2:])
+			if waitFor(reader.drained, 50*time.Millisecond) {
+				sr.HandleStartCheckpoint(ctx, uint64(id))
+				reader.push(c04Item{recs: recs, thenAwait: true})
+			} else { // the loop is held up elsewhere: same read order through the reader-driven barrier
+				reader.push(c04Item{recs: recs})
+				reader.push(c04Item{isBar: true, barrier: uint64(id)})
+			}
+		case len(f) >= 3 && f[0] == "midbar":
+			// checkpoint request arrives while the loop is in the middle of enqueueing this read, held up by a flush of the
+			// key-by batcher (parked at rf.flush.mid). Read order: all records of the read, then the barrier.
+			expBars++
+			id := atoi(f[1])
+			barIDs = append(barIDs, id)
+			recs := addRecs(f[2:])
+			if !waitFor(reader.drained, 50*time.Millisecond) {
+				reader.push(c04Item{recs: recs})
+				reader.push(c04Item{isBar: true, barrier: uint64(id)})
+				break
+			}
+			const mid = "rf.flush.mid"
+			before, n0 := reader.cursor(), parkedAt(mid)
+			hooks.mu.Lock()
+			hooks.next[mid] = true
+			hooks.mu.Unlock()
+			reader.push(c04Item{recs: recs})
+			waitFor(func() bool { return parkedAt(mid) > n0 || (reader.cursor() == before+len(recs) && reader.drained()) }, 50*time.Millisecond)
+			if reader.cursor() == before+len(recs) {
+				reader.setAwaiting()
+				sr.HandleStartCheckpoint(ctx, uint64(id))
+			} else {
+				reader.push(c04Item{isBar: true, barrier: uint64(id)})
+			}
+			hooks.release(mid)
 		case len(f) == 2 && f[0] == "fire":
 			tm.fire(atoi(f[1]))
 		case len(f) == 2 && f[0] == "fin":
@@ -519,10 +654,10 @@ func c04Impl(c lib.Case) []string {
 					tm.fire(-1)
 					time.Sleep(200 * time.Microsecond)
 				}
-				res = streams()
+				res = streams() + " | " + cutCheck()
 			} else {
 				c04Timeouts.Add(1)
-				res = "timeout " + streams()
+				res = "timeout " + streams() + " | " + cutCheck()
 			}
 			if overlap.Load() {
 				res = "concurrent-HandleEventBatch " + res
@@ -576,9 +711,47 @@ func c04BackPressure(r *lib.Rng, rounds int) lib.Case {
 	return c
 }
 
+// c04Ckpt is the schedule family "checkpoint requests at awkward moments": requests that arrive while a read is being
+// fetched (readbar) and while the loop is half-way through enqueueing a multi-record read, held up by a flush of the
+// key-by batcher (midbar). The barrier must come after every record the reader had handed out when Checkpoint() ran.
+func c04Ckpt(r *lib.Rng, rounds int) lib.Case {
+	size := r.Range(2, 3)
+	nOps := r.Range(1, 3)
+	keys := []string{"61", "62", "6b31", "00"}
+	c := lib.Case{Header: fmt.Sprintf("M C04 %d 8 %d 1", nOps, size), Tags: []string{"ckpt"}, Ops: []string{"free"}}
+	id, bar := 1, 1
+	recs := func(n int) string {
+		var rs []string
+		for ; n > 0; n-- {
+			rs = append(rs, fmt.Sprintf("%d:%s:1", id, lib.Pick(r, keys)))
+			id++
+		}
+		return strings.Join(rs, " ")
+	}
+	for k := 0; k < rounds; k++ {
+		switch r.Intn(6) {
+		case 0, 1:
+			c.Ops = append(c.Ops, fmt.Sprintf("readbar %d %s", bar, recs(r.Range(1, 3))))
+			bar++
+		case 2, 3:
+			c.Ops = append(c.Ops, fmt.Sprintf("midbar %d %s", bar, recs(size+r.Range(1, 3))))
+			bar++
+		case 4:
+			c.Ops = append(c.Ops, "read "+recs(r.Range(1, 4)))
+		default:
+			c.Ops = append(c.Ops, "fire -1", "nap 1")
+		}
+	}
+	c.Ops = append(c.Ops, "end")
+	return c
+}
+
 func c04Gen(r *lib.Rng, tier string, i int) lib.Case {
 	if i%8 == 3 {
 		return c04BackPressure(r, r.Range(4, 8))
+	}
+	if i%8 == 5 || i%8 == 7 {
+		return c04Ckpt(r, r.Range(6, 14))
 	}
 	nOps := r.Range(1, 3)
 	kgc := lib.Pick(r, []int{4, 8, 16, 256})
@@ -642,7 +815,7 @@ func propC04() *lib.Prop {
 	return &lib.Prop{
 		ID:   "C04",
 		Corr: "Model/Runner.lean (Runner.project of the read order; every schedule by C04.per_operator_stream/delivery_complete) ↔ real sourcerunner.SourceRunner + operatorCluster + batchingOperator + ReorderFetcher driven in-process with a scripted SourceReader, gated KeyEventBatch, recording operators with back-pressure, fireable batch timers and verifhook parking",
-		Rule: "cases = read order (records with keys from a small set, 0-3 keyed events each, barriers) + schedule stirring (timer expiries incl. stale, out-of-order KeyEventBatch completions, operator back-pressure, flushers parked at rf.flush.enter/rf.flush.mid/batcher.flush); 1-3 operators, batch size 0-4; compared: the complete HandleEventBatch stream of every operator; non-trivial = at least 2 keyed events with the same key, a timer expiry and an out-of-order completion or a parked flusher",
+		Rule: "cases = read order (records with keys from a small set, 0-3 keyed events each, barriers; checkpoint requests also arrive while a read is being fetched and in the middle of enqueueing a multi-record read; for every barrier the reader's cursor at Checkpoint() is compared with what was delivered before the barrier) + schedule stirring (timer expiries incl. stale, out-of-order KeyEventBatch completions, operator back-pressure, flushers parked at rf.flush.enter/rf.flush.mid/batcher.flush); 1-3 operators, batch size 0-4; compared: the complete HandleEventBatch stream of every operator; non-trivial = at least 2 keyed events with the same key, a timer expiry and an out-of-order completion or a parked flusher",
 		NumCases: func(tier string) int {
 			if tier == "thorough" {
 				return 2500
@@ -655,6 +828,11 @@ func propC04() *lib.Prop {
 				{Header: "M C04 2 8 2 1", Tags: []string{"D17"}, Ops: []string{"read 1:61:1", "yield", "park mid", "fire 0", "await mid", "read 2:61:1 3:61:1", "yield", "yield", "yield", "rel mid", "yield", "fin 1", "yield", "fin 0", "barrier 1", "end"}},
 				{Header: "M C04 1 4 2 1", Tags: []string{"D17"}, Ops: []string{"read 1:61:1", "yield", "park mid", "fire 0", "await mid", "read 2:62:1 3:61:1", "yield", "yield", "yield", "rel mid", "end"}},
 				c04BackPressure(lib.NewRng(41), 8), c04BackPressure(lib.NewRng(42), 8), c04BackPressure(lib.NewRng(43), 8),
+				c04Ckpt(lib.NewRng(51), 12), c04Ckpt(lib.NewRng(52), 12),
+				// a checkpoint request in the middle of a 4-record read (batch size 2): the barrier belongs after record 4
+				{Header: "M C04 1 8 2 1", Tags: []string{"ckpt"}, Ops: []string{"free", "midbar 1 1:61:1 2:61:1 3:61:1 4:61:1", "read 5:61:1", "end"}},
+				// requests arriving while a read is being fetched, several in a row
+				{Header: "M C04 2 8 2 1", Tags: []string{"ckpt"}, Ops: []string{"free", "readbar 1 1:61:1", "readbar 2 2:62:1 3:61:1", "readbar 3 4:61:1", "readbar 4 5:62:1", "readbar 5 6:61:1 7:61:1", "readbar 6 8:62:1", "end"}},
 				{Header: "M C04 1 4 1 1", Tags: []string{"basic"}, Ops: []string{"read 1:61:1 2:62:2 3:61:0", "barrier 1", "read 4:61:1", "end"}},
 			}
 		},
@@ -671,8 +849,12 @@ func propC04() *lib.Prop {
 					fire = true
 				case "fin", "park":
 					stir = true
-				case "read":
-					for _, r := range f[1:] {
+				case "read", "readbar", "midbar":
+					recs := f[1:]
+					if f[0] != "read" {
+						recs, stir, fire = f[2:], true, true
+					}
+					for _, r := range recs {
 						p := strings.Split(r, ":")
 						if len(p) == 3 && p[2] != "0" {
 							keys[p[1]]++
